@@ -135,6 +135,27 @@ HISTORY = {
     "C18-6": ("missed", "C18 driver: every other reload scenario runs with local upgrades (upgrade queue = update queue) and has password changes among the requests in flight"),
     "C19-6": ("translator only (kill-timer fact disappeared)", "thorough tier only: a hook that ignores SIGTERM must be gone 70 s after its start (the quick tier reports the broken fact, no failing input)"),
     "C20-6": ("correspondence only (no failing input)", "C20: the reply body delivered in two or three segments, split at every position where a later segment begins with \"OK\""),
+    # round 7 (first run in a snapshot universe: seeded/sweep7-first.log)
+    "C01-7": ("caught", ""),
+    "C02-7": ("caught (the driver sat in the hanging call until its time-out; inputs from the other file contents)", "store drivers: authentication runs under an 8 s watchdog; a call that does not return is a reported input"),
+    "C03-7": ("missed", "trace scenarios: dangling symbolic links under the names of absent users, pointing at a sibling store / a decoy (add, update, authenticate); every traced add / init must open the hash file's reservation with O_EXCL; snapshots record symbolic links without following them"),
+    "C04-7": ("missed", "C04 driver: the saslauthd request delivered in segments (cut inside login, password, service, a length prefix; byte-wise) over a raw socket"),
+    "C05-7": ("missed", "C05 driver: the process out of file descriptors for 300 ms with clients in the listen queue, then four ordinary connections"),
+    "C06-7": ("obligation only (state inventory: the agent's store got a cache field)", "C06 driver: an administrator logs in, is demoted by another administrator, logs in again at once and uses the new session (and the other way round for an ordinary user)"),
+    "C07-7": ("caught", ""),
+    "C08-7": ("caught", ""),
+    "C09-7": ("caught", ""),
+    "C10-7": ("obligation only (state inventory: store.Dir got a mutex)", "C10 driver: modifications that fail inside the store library (the name is a dangling symbolic link; '.tmp' is a regular file) with every request kind probed after each, local upgrades on"),
+    "C11-7": ("translator only (client-side rendezvous fact: buffered response channel, select with a timer)", "- (a request that waits just under the new 5 s deadline and then executes past it needs a backlog of that length; not exercised)"),
+    "C12-7": ("missed", "C12 driver: every fifth sequence has stale files in the work area under names derived from the users' hash files, longer than any record an upgrade writes"),
+    "C13-7": ("caught", "(several long fields in one request, whole / byte-wise / random fragments, were added as well)"),
+    "C14-7": ("caught", ""),
+    "C15-7": ("missed", "the dangling-symbolic-link trace scenario (see C03-7): a failed add leaves the link where it was"),
+    "C16-7": ("correspondence only (C16's directories are built without faults)", "C16 got a system-call level part: set-admin / remove / add / update under every single injected I/O error - afterwards no user has two files"),
+    "C17-7": ("obligation only (state inventory: zxcvbnPolicy got a channel field)", "- (needs a password that keeps the estimator busy for more than two seconds; not exercised)"),
+    "C18-7": ("caught", ""),
+    "C19-7": ("missed", "C19 driver: executable entries that cannot be started (dangling link, missing interpreter, no program) interleaved with good hooks: every good hook must be started"),
+    "C20-7": ("missed", "C20: socket path options of 90 / 106 / 107 / 108 / 109 / 110 / 200 / 4000 bytes (sun_path holds 108), unreachable and answering"),
 }
 
 
